@@ -267,7 +267,7 @@ theorem assignWithRangeFwd_sat (cfg : Cfg) (c : Nat) (srcs : List (Src α)) (w :
           simp only [List.getElem_take, List.getElem_map]
           injection b with b; injection b with b
         rw [heq] at hy2
-        have hfr : Frame1 w w2 c := hb1.frame.trans her.basic.frame
+        have hfr : Frame1 w w2 c := Frame1.trans hl hv hb1.frame her.basic.frame
         refine ⟨⟨her.basic.vec, her.basic.led, by rw [her.basic.ub, hb1.ub], hfr⟩, hy2, by rw [her.alloc, hh1],
                 fun _ => ⟨by rw [her.data, hh1], by rw [her.cap, hh1], by rw [her.noalloc.2, hc1.live], by rw [her.noalloc.1, hc1.next]⟩,
                 fun h => by rw [hml] at h; omega⟩
